@@ -16,7 +16,9 @@ ArgsMut == {"add", "addempty", "set", "parse", "parsebare", "del"}
 \* gives up on an error while the owner shuts down): the socket must return to the pool once
 SockMut == {"setid", "swapstore", "swapreplace", "concclose"}
 PipeMut == {"appendg", "appendm", "appendgm"}
-CtxFeat == {"meta", "pipe", "codec", "outmeta", "outcodec", "swap", "status"}   \* what request 1 used
+\* what request 1 used; "ctxage": it was handled under a session context age (the handler context got a deadline context);
+\* "callctx": the peer then made a call of its own with a caller-supplied context, whose reply a pooled context processed
+CtxFeat == {"meta", "pipe", "codec", "outmeta", "outcodec", "swap", "status", "ctxage", "callctx"}
 Seqs(S, n) == UNION {[1..k -> S] : k \in 0..n}
 Cases ==
        {[fam |-> "pool", kind |-> "message", muts |-> q, next |-> nx, expect |-> "fresh"] : q \in Seqs(MsgMut, MaxMut), nx \in {"observe", "pack"}}
